@@ -23,7 +23,7 @@ for name in sorted(os.listdir(SRC)):
             shutil.copy(os.path.join(d, f), os.path.join(out, f))
     notes = open(os.path.join(d, "notes.txt")).read() if os.path.exists(os.path.join(d, "notes.txt")) else ""
     meta = {
-        "property": name.split("_")[0],
+        "property": name.split("_")[0].rstrip("b"),
         "breaks": CAUGHT[name]["what"],
         "needs_to_manifest": CAUGHT[name]["needs"],
         "confirmed": {
